@@ -249,6 +249,8 @@ func loadPoints() {
 			Line   int      `json:"line"`
 			Reads  []string `json:"reads"`
 			Writes []string `json:"writes"`
+			AR     []string `json:"atomic_reads"`
+			AW     []string `json:"atomic_writes"`
 		} `json:"points"`
 	}
 	if json.Unmarshal(b, &rep) != nil {
@@ -256,7 +258,7 @@ func loadPoints() {
 	}
 	sched.Points = map[int]sched.PointInfo{}
 	for _, p := range rep.Points {
-		sched.Points[p.ID] = sched.PointInfo{Where: fmt.Sprintf("%s:%d", p.File, p.Line), Reads: p.Reads, Writes: p.Writes}
+		sched.Points[p.ID] = sched.PointInfo{Where: fmt.Sprintf("%s:%d", p.File, p.Line), Reads: p.Reads, Writes: p.Writes, AtomicReads: p.AR, AtomicWrites: p.AW}
 	}
 }
 
